@@ -245,6 +245,34 @@ non-`const` `adc_mul_limbs` of src/uint/mul/karatsuba.rs (namespace CB.Gen.MulRo
   its `verif_` forwarder); unit option `panic_guards`: `if cond { panic!(".."); }` guards are dropped and recorded as
   `-- the source panics if: ..` (a precondition of the bridge theorems) also for functions WITH a return type (G11's `slices`
   convention: `adc_mul_limbs .. : out' × carry`).
+Tenth unit group (round 4, G16; written to lean/CB/Gen/CmpMore.lean, imports CB.Gen.Chains and CB.Gen.Shifts): the remaining
+compare / bit-operation / bit-query functions of C06 and C05 — `impl Limb { eq_vartime, bitxor, bitor, not }`
+(src/limb/{cmp,bit_xor,bit_or,bit_not}.rs; namespace CB.Gen.CmpMore.Limb), the variable-time free functions `bit_vartime`,
+`bits_vartime`, `trailing_zeros_vartime`, `trailing_ones_vartime` over a limb slice of src/uint/bits.rs (namespace
+CB.Gen.CmpMore.Bits; unit options `cut`, `usize_nat`) and `impl<const LIMBS: usize> Uint<LIMBS> { is_odd, cmp, cmp_vartime,
+bitor, wrapping_or, bitxor, wrapping_xor, not, bit, bit_vartime, bits, bits_vartime, leading_zeros, leading_zeros_vartime,
+trailing_zeros, trailing_zeros_vartime, trailing_ones, trailing_ones_vartime, set_bit }` (src/uint/{cmp,bit_or,bit_xor,bit_not,
+bits}.rs; namespace CB.Gen.CmpMore.Uint; the forwarders call the slice functions of CB.Gen.Shifts.Bits / CB.Gen.CmpMore.Bits
+with `&self.limbs`, the limb list itself).  Subset extensions used there:
+  `core::cmp::Ordering` is its discriminant as an `i8` (Rust defines `Less = -1, Equal = 0, Greater = 1`): the type is
+  `BitVec 8`, `Ordering::Less/Equal/Greater` are `(-1#8)`, `0#8`, `1#8`; the literals `true` / `false`;
+  an `if c { .. } else { .. }` EXPRESSION (also `else if`; as the final expression of a body, as the value of a `return`, or
+  anywhere an expression stands): `(if c then (<lets>; e1) else (<lets>; e2))`, both branches of one type;
+  a bare block statement `{ .. }` (its statements are inlined; a `let` in it that shadows is unsupported like everywhere);
+  unit option `usize_nat`: `e as usize` of a word is its value as a `Nat` also in a unit that is not generic over `LIMBS`;
+  a sixth `while` form, the SEARCH loop with a data-dependent exit:
+    - `while i > 0 && cond(i) { i -= 1; }` (`usize` counter, the body is the decrement alone) becomes
+      `<fn>_loop<j> captured.. : Nat → Nat` by structural recursion on the counter: `| 0 => 0`,
+      `| n + 1 => if cond(n + 1) then <fn>_loop<j> .. n else n + 1` — the result is the final counter;
+  `break`: `if cond { break; }` at the top level of the body of a `while i < BOUND` loop (fourth form) — every round
+      re-tests the exit: `if cond then <the state at this point> else <the rest of the round, then recurse>`; the counter is not
+      available after such a loop;
+  `loop { ..; if i == 0 { return E; } i -= 1; }` as the LAST statement of a function (a count-down loop that is left only by
+      `return`; the body may contain early returns `if c { return e; }`, no assignments to outer variables) becomes
+      `<fn>_loop<j> captured.. : Nat → <result type>` by structural recursion on the counter, the two patterns being the two
+      outcomes of the test `i == 0`: `| 0 => <body with i = 0>; E` and `| n + 1 => <body with i = n + 1>; <fn>_loop<j> .. n`;
+      the function's value is the call with the counter's initial value (`LIMBS - 1`, truncated: for `LIMBS = 0` Rust's
+      `usize` subtraction overflows — a panic — and the translation reads the default limb 0 at index 0).
 """
 import os, re, sys, json
 
@@ -588,6 +616,22 @@ class P:
         stmts.append(('assign_idx', name, idx, op, rhs))
         return True
 
+    def bare_block(self, stmts):
+        """`{ stmts }` in statement position (no value): the statements are inlined; a block that ends in an expression is a
+        block EXPRESSION (G14) and is left to the expression parser: position untouched"""
+        save, save_ns = self.i, self.nostruct
+        try:
+            self.eat('op', '{')
+            inner, fin = self.block()
+            if fin is not None:
+                raise Unsupported('block expression')
+            self.eat('op', '}')
+        except Unsupported:
+            self.i, self.nostruct = save, save_ns
+            return False
+        stmts.extend(inner)
+        return True
+
     def if_return(self, stmts):
         """`if cond { return e; }` (an early return, no `else`) -> ('ifret', cond, e); anything else: position untouched"""
         save = self.i
@@ -608,6 +652,64 @@ class P:
             self.i, self.nostruct = save, False
             return False
         stmts.append(('ifret', cond, e))
+        return True
+
+    def if_expr(self):
+        """`if cond { [lets] e1 } else { [lets] e2 }` / `else if ..` as an EXPRESSION -> ('ifexpr', cond, (stmts, e1), (stmts, e2))"""
+        self.eat('id', 'if')
+        save = self.nostruct
+        self.nostruct = True
+        cond = self.expr()
+        self.nostruct = False
+        self.eat('op', '{')
+        then = self.block()
+        self.eat('op', '}')
+        if not self.at('else'):
+            raise Unsupported('if expression without else')
+        self.eat()
+        if self.at('if'):
+            els = ([], self.if_expr())
+        else:
+            self.eat('op', '{')
+            els = self.block()
+            self.eat('op', '}')
+        self.nostruct = save
+        if then[1] is None or els[1] is None:
+            raise Unsupported('if expression: a branch without a value')
+        return ('ifexpr', cond, then, els)
+
+    def if_final(self):
+        """an `if .. else ..` EXPRESSION that ends the block (sets self.final); anything else: position untouched"""
+        save, savens = self.i, self.nostruct
+        try:
+            e = self.if_expr()
+            if self.at_end():
+                self.final = e
+                return True
+        except Unsupported:
+            pass
+        self.i, self.nostruct = save, savens
+        return False
+
+    def if_break(self, stmts):
+        """`if cond { break; }` -> ('ifbreak', cond); anything else: position untouched"""
+        save = self.i
+        try:
+            self.eat('id', 'if')
+            self.nostruct = True
+            cond = self.expr()
+            self.nostruct = False
+            self.eat('op', '{')
+            self.eat('id', 'break')
+            if self.at(';'):
+                self.eat()
+            self.eat('op', '}')
+            if self.at('else'):
+                raise Unsupported('if .. else')
+        except Unsupported:
+            self.i, self.nostruct = save, False
+            return False
+        stmts.append(('ifbreak', cond))
         return True
 
     # ---- statements
@@ -743,8 +845,19 @@ class P:
                     raise Unsupported('loop body ends in an expression')
                 self.eat('op', '}')
                 stmts.append(('while', cond, body))
+            elif tok == ('id', 'loop') and self.peek(1) == ('op', '{'):
+                self.eat(); self.eat()
+                body, fin = self.block()
+                if fin is not None:
+                    raise Unsupported('loop body ends in an expression')
+                self.eat('op', '}')
+                stmts.append(('loop', body))
+            elif tok == ('op', '{') and self.bare_block(stmts):
+                pass                                # a bare block statement: its statements are inlined
+            elif tok == ('id', 'if') and self.if_final():
+                return stmts, self.final            # an `if .. else ..` EXPRESSION as the value of the block
             elif tok == ('id', 'if'):
-                if not self.if_return(stmts):       # `if c { return e; }` (an early return) before the general `if` statement
+                if not self.if_return(stmts) and not self.if_break(stmts):       # (`if c { break; }`: G16's `ifbreak`) `if c { return e; }` (an early return) before the general `if` statement
                     save_i = self.i
                     try:
                         stmts.append(self.if_())
@@ -1126,6 +1239,8 @@ def ty_of(t, self_ty):
         if not isinstance(el, tuple) or int(m.group(2)) < 2:
             raise Unsupported('array type ' + t)
         return tuple(el for _ in range(int(m.group(2))))
+    if t == 'Ordering':
+        return SInt(8)       # `core::cmp::Ordering`: its discriminant as an `i8` (Less = -1, Equal = 0, Greater = 1)
     raise Unsupported('type ' + t)
 
 
@@ -1297,6 +1412,8 @@ class Gen:
                 raise Unsupported('untyped literal')
             return f'{e[1]}#{w}', w
         if k == 'var':
+            if e[1] in ('true', 'false') and e[1] not in env:
+                return e[1], 'bool'
             if e[1] not in env:
                 raise Unsupported('unknown variable ' + e[1])
             if env[e[1]][1] == 'undef':
@@ -1350,7 +1467,25 @@ class Gen:
                     and (p[0] == 'Uint' or (p[0] == 'Self' and self.self_ty == 'Uint'))):
                 # `Uint::ZERO` (`from_u8(0)`): all limbs zero (also from a free generic function, where there is no `Self`)
                 return f'(List.replicate {env[self.generic][0]} 0#64)', 'uint'
+            if len(p) == 2 and p[0] == 'Ordering' and p[1] in ('Less', 'Equal', 'Greater'):
+                return {'Less': '(-1#8)', 'Equal': '0#8', 'Greater': '1#8'}[p[1]], SInt(8)
             raise Unsupported('path ' + '::'.join(p))
+        if k == 'ifexpr':
+            c, tc = self.ex(e[1], env)
+            if tc != 'bool':
+                raise Unsupported('if condition of type ' + str(tc))
+            outs_ = []
+            for stmts_, fin_ in (e[2], e[3]):
+                e2, l2, saved = dict(env), [], dict(self.cenv)
+                self.run(stmts_, e2, l2, set())
+                t, ty = self.ex(fin_, e2, want if not outs_ else outs_[0][1])
+                self.cenv = saved
+                if any('\n' in l for l in l2):
+                    raise Unsupported('if expression: a loop / if statement inside a branch')
+                outs_.append((''.join(l + '; ' for l in l2) + t, ty))
+            if outs_[0][1] != outs_[1][1]:
+                raise Unsupported(f'if expression: branch types {outs_[0][1]} / {outs_[1][1]}')
+            return f'(if {c} then ({outs_[0][0]}) else ({outs_[1][0]}))', outs_[0][1]
         if k == 'field':
             t, ty = self.ex(e[1], env)
             if ty == 'choice' and e[2] == 0:
@@ -1446,6 +1581,14 @@ class Gen:
             return f'(-{t})', ty
         if k == 'as' and e[2] == 'usize' and self.generic and e[1][0] != 'lit' and not self.is_lit_var(e[1], env):
             # a word used as a limb index / count (`(shift / Limb::BITS) as usize`): its value as a `Nat`
+            t, ty = self.ex(e[1], env)
+            if ty == 'nat':
+                return t, 'nat'
+            if not isinstance(ty, int) or ty > 64:
+                raise Unsupported('cast of ' + str(ty) + ' to usize')
+            return f'({t}).toNat', 'nat'
+        if k == 'as' and e[2] == 'usize' and OPTS.get('usize_nat') and e[1][0] != 'lit' and not self.is_lit_var(e[1], env):
+            # (unit option `usize_nat`) the same in a unit that is not generic over a limb count
             t, ty = self.ex(e[1], env)
             if ty == 'nat':
                 return t, 'nat'
@@ -1919,6 +2062,15 @@ class Gen:
                 lines.append(f'if {c} then {t} else')
             elif k == 'loop':
                 self.do_loop(st[1], env, lines)
+            elif k == 'ifbreak':
+                # `if cond { break; }` at the top level of the body of a `while i < BOUND` loop: leave with the state at this point
+                if getattr(self, 'break_owner', None) is not stmts:
+                    raise Unsupported('break outside the top level of a `while i < BOUND` body')
+                c, tc = self.ex(st[1], env)
+                if tc != 'bool':
+                    raise Unsupported('condition of type ' + str(tc))
+                bs = self.break_state
+                lines.append(f'if {c} then ' + ('(' + ', '.join(env[s][0] for s in bs) + ')' if len(bs) > 1 else env[bs[0]][0]) + ' else')
             else:
                 raise Unsupported('statement ' + k)
 
@@ -1944,6 +2096,7 @@ class Gen:
         by recursion on a FUEL argument: `| 0, s => s | n + 1, s => pre; if cond then s' else post; recurse n s''`.
         A `loop` has no syntactic trip bound: the fuel is an INPUT of the translation (unit option `fuel`, per function) and
         the bridge theorems have to prove that the `break` is reached within it."""
+        body = [('if', st[1], [('break',)], None) if st[0] == 'ifbreak' else st for st in body]     # G16 parses `if c { break; }` as 'ifbreak'
         fuel = (self.ext.get('fuel') or {}).get(self.fname)
         if fuel is None:
             raise Unsupported('`loop` without a declared trip bound')
@@ -2272,6 +2425,10 @@ class Gen:
         if (cond[0] == 'bin' and cond[1] == '<' and cond[2][0] == 'var' and cond[2][1] not in self.cenv
                 and env.get(cond[2][1], (None, None))[1] == 'nat' and self.generic and cond[2][1] != self.generic):
             return self.emit_loop_up(cond, body, env, lines)
+        # (6) the search loop `while i > 0 && cond(i) { i -= 1; }` over a `usize` counter
+        if (cond[0] == 'bin' and cond[1] == '&&' and cond[2] == ('bin', '>', cond[2][2], ('lit', 0, None)) and cond[2][2][0] == 'var'
+                and env.get(cond[2][2][1], (None, None))[1] == 'nat'):
+            return self.emit_loop_search(cond[2][2][1], cond[3], body, env, lines)
         # (2) `while i > 0 { i -= 1; .. }`: structural recursion on i.toNat
         if not (cond[0] == 'bin' and cond[1] == '>' and cond[2][0] == 'var' and cond[3][0] == 'lit' and cond[3][1] == 0):
             raise Unsupported('loop form')
@@ -2520,6 +2677,8 @@ class Gen:
             env[i] = (bound, 'nat')
         else:
             del env[i]
+        if any(st[0] == 'ifbreak' for st in rest):
+            env.pop(i, None)               # left by `break`: the counter is not BOUND
 
     def loop_up_text(self, i, step, bound_e, rest, state, styp, captured, env):
         self.nloop += 1
@@ -2544,7 +2703,12 @@ class Gen:
         if tb != 'nat':
             raise Unsupported('loop bound of type ' + str(tb))
         lines2 = []
-        self.run(rest, env2, lines2, declared)
+        saved_break = (getattr(self, 'break_owner', None), getattr(self, 'break_state', None))
+        self.break_owner, self.break_state = rest, state
+        try:
+            self.run(rest, env2, lines2, declared)
+        finally:
+            self.break_owner, self.break_state = saved_break
         if declared & outer:
             raise Unsupported('loop body shadows an outer variable')
         if any(env2[s][1] != ty for s, ty in zip(state, styp)):
@@ -2560,6 +2724,82 @@ class Gen:
         if isinstance(tbo, int):
             bound_out = f'({bound_out}).toNat'
         return text, aux, capa, bound_out
+
+    def emit_loop_search(self, i, test, body, env, lines):
+        """`while i > 0 && test(i) { i -= 1; }` (`usize` counter; the body is the decrement alone):
+            `<fn>_loop<j> captured.. : Nat → Nat`, `| 0 => 0`, `| n + 1 => if test(n + 1) then <fn>_loop<j> .. n else n + 1`
+        by structural recursion on the counter; the result is the final counter"""
+        if body != [('assign', i, '-=', ('lit', 1, None))]:
+            raise Unsupported('search loop: the body must be the decrement of the counter')
+        used = free_vars(test, [])
+        captured = [v for v in env if v in used and v != i]
+        if any(env[v][1] in ('lit', 'undef') for v in captured):
+            raise Unsupported('loop condition reads an untyped counter')
+        self.nloop += 1
+        aux = f'{self.fname}_loop{self.nloop}'
+        env2 = {}
+        for v in captured:
+            env2[v] = (self.fresh('self_' if v == 'self' else v, env2), env[v][1])
+        nvar = self.fresh('n', env2)
+        env2[i] = (f'({nvar} + 1)', 'nat')
+        saved_cenv, self.cenv = self.cenv, {}
+        c, tc = self.ex(test, env2)
+        self.cenv = saved_cenv
+        if tc != 'bool':
+            raise Unsupported('loop condition of type ' + str(tc))
+        capb = ''.join(f' ({env2[v][0]} : {lean_ty(env2[v][1])})' for v in captured)
+        capa = ''.join(f' {env2[v][0]}' for v in captured)
+        self.aux.append(f'@[gen_defs] def {aux}{capb} : Nat → Nat\n  | 0 => 0\n  | {nvar} + 1 =>\n'
+                        f'    if {c} then {self.ns}.{aux}{capa} {nvar} else {nvar} + 1')
+        callt = f'({self.ns}.{aux}' + ''.join(f' {atom(env[v][0])}' for v in captured) + f' {atom(env[i][0])})'
+        self.cenv.pop(i, None)
+        self.bind(i, callt, 'nat', env, lines)
+
+    def loop_ret(self, body, env, rty):
+        """`loop { rest; if i == 0 { return E; } i -= 1; }` as the last statement of a function (left only by `return`):
+            `<fn>_loop<j> captured.. : Nat → R`, `| 0 => <rest with i = 0>; E`, `| n + 1 => <rest with i = n + 1>; <fn>_loop<j> .. n`
+        by structural recursion on the counter (the patterns are the outcomes of the test `i == 0`); -> the call"""
+        if len(body) < 2 or body[-1][0] != 'assign' or body[-1][2:] != ('-=', ('lit', 1, None)):
+            raise Unsupported('loop form: `loop` must end with `if i == 0 { return e; } i -= 1;`')
+        i = body[-1][1]
+        if body[-2][0] != 'ifret' or body[-2][1] != ('bin', '==', ('var', i), ('lit', 0, None)) or env.get(i, (None, None))[1] != 'nat':
+            raise Unsupported('loop form: `loop` must end with `if i == 0 { return e; } i -= 1;`')
+        rest, exit_e = body[:-2], body[-2][2]
+        if assigned_vars(rest) or any(st[0] in ('while', 'loop', 'if', 'assign_tuple', 'assigntuple') for st in rest):
+            raise Unsupported('loop with return: assignments to outer variables / nested statements')
+        used = free_vars(rest, []) + free_vars(exit_e, [])
+        if self.generic:
+            used.append(self.generic)
+        captured = [v for v in env if v in used and v != i]
+        if any(env[v][1] in ('lit', 'undef') for v in captured):
+            raise Unsupported('loop body reads an untyped counter')
+        self.nloop += 1
+        aux = f'{self.fname}_loop{self.nloop}'
+        base = {}
+        for v in captured:
+            base[v] = (self.fresh('self_' if v == 'self' else v, base), env[v][1])
+        nvar = self.fresh('n', base)
+        capb = ''.join(f' ({base[v][0]} : {lean_ty(base[v][1])})' for v in captured)
+        capa = ''.join(f' {base[v][0]}' for v in captured)
+        saved_cenv = self.cenv
+        cases = []
+        for ival in ('0', f'({nvar} + 1)'):
+            env2, lines2 = dict(base), []
+            env2['\0n'] = (nvar, 'nat')
+            env2[i] = (ival, 'nat')
+            self.cenv = {}
+            self.run(rest, env2, lines2, None)
+            if ival == '0':
+                t, ty = self.ex(exit_e, env2, rty)
+                if ty != rty:
+                    raise Unsupported(f'return type {ty} vs {rty}')
+                lines2.append(t)
+            else:
+                lines2.append(f'{self.ns}.{aux}{capa} {nvar}')
+            cases.append(join_lines('\n    ', lines2))
+        self.cenv = saved_cenv
+        self.aux.append(f'@[gen_defs] def {aux}{capb} : Nat → {lean_ty(rty)}\n  | 0 =>\n    {cases[0]}\n  | {nvar} + 1 =>\n    {cases[1]}')
+        return f'{self.ns}.{aux}' + ''.join(f' {atom(env[v][0])}' for v in captured) + f' {atom(env[i][0])}'
 
     def body(self, body, env, rty, outs=None):
         """function body -> lean lines; `outs`: the `&mut` slice parameters of a function without a return type, whose final
@@ -2586,6 +2826,14 @@ class Gen:
             env = dict(env)
             self.run(stmts, env, lines)
             lines.append('(' + ', '.join(env[o][0] for o in outs) + ')' if len(outs) > 1 else env[outs[0]][0])
+            return lines
+        if final is None and stmts and stmts[-1][0] == 'loop':
+            # a function whose last statement is a `loop` left only by `return`: its value is the loop's
+            lines = []
+            env = dict(env)
+            self.rty = rty
+            self.run(stmts[:-1], env, lines)
+            lines.append(self.loop_ret(stmts[-1][1], env, rty))
             return lines
         if final is None:
             raise Unsupported('no final expression')
@@ -3223,6 +3471,23 @@ FILES = [
              desc='safegcd word level: iterations, inv_mod2_62, jump (the 62 batched divsteps on the low words; `loop`/`break` by fuel)',
              want=['iterations', 'inv_mod2_62', 'min', 'jump'], skip_mods=['verif'], defer_lets=True, fuel=dict(jump='64')),
     ]),
+    # the remaining compare / bit-operation / bit-query functions (C06, C05): `cmp`, `cmp_vartime`, limb-wise `|` `^` `!`, the
+    # variable-time slice queries (`break`, search loop, `if` expression) and the `impl Uint` forwarders of src/uint/bits.rs, `set_bit`
+    ('CmpMore.lean', ['CB.Gen.Chains', 'CB.Gen.Shifts', None, 'set_option linter.unusedVariables false'], [
+        dict(key='limb_cmp_more', rel=['src/limb/cmp.rs', 'src/limb/bit_xor.rs', 'src/limb/bit_or.rs', 'src/limb/bit_not.rs'],
+             ns='CB.Gen.CmpMore.Limb', self_ty='Limb', desc='impl Limb: eq_vartime, the word operations ^ | !',
+             want=['eq_vartime', 'bitxor', 'bitor', 'not'], use=['prim']),
+        dict(key='bits_vartime', rel='src/uint/bits.rs', ns='CB.Gen.CmpMore.Bits', self_ty=None, limb_more=['limb_shift'],
+             desc='the variable-time bit queries over `&[Limb]`: `if` expression, search loop, loops with `break`',
+             want=['bit_vartime', 'bits_vartime', 'trailing_zeros_vartime', 'trailing_ones_vartime'], cut='\nimpl<', usize_nat=True),
+        dict(key='uint_cmp_more', rel=['src/uint/cmp.rs', 'src/uint/bit_or.rs', 'src/uint/bit_xor.rs', 'src/uint/bit_not.rs', 'src/uint/bits.rs'],
+             ns='CB.Gen.CmpMore.Uint', self_ty='Uint', generic='LIMBS', limb_more=['limb_cmp_more', 'limb_shift'],
+             use=['uint_bits', 'bits_vartime'],
+             desc='impl<const LIMBS: usize> Uint<LIMBS>: is_odd, cmp, cmp_vartime, limb-wise | ^ !, the bit-query forwarders, set_bit',
+             want=['is_odd', 'cmp', 'cmp_vartime', 'bitor', 'wrapping_or', 'bitxor', 'wrapping_xor', 'not', 'bit', 'bit_vartime', 'bits',
+                   'bits_vartime', 'leading_zeros', 'leading_zeros_vartime', 'trailing_zeros', 'trailing_zeros_vartime',
+                   'trailing_ones', 'trailing_ones_vartime', 'set_bit']),
+    ]),
 ]
 
 AUX = re.compile(r'\w+_loop\d+$')
@@ -3302,6 +3567,7 @@ def main():
             for opt in ('fuel', 'skip_mods', 'defer_lets'):
                 if u.get(opt):
                     ext[opt] = u[opt]
+            OPTS.update({k: u[k] for k in ('usize_nat',) if u.get(k)})
             try:
                 order, out, failed, sigs = translate_file(path, ns, self_ty, u.get('want'), u.get('private', False), ext, u.get('cut'))
             except (Unsupported, OSError) as ex:
